@@ -160,3 +160,9 @@ package lexer
 //@   ensures[C02,C03] !result ==> atEOF(l.reader)
 //@   # ... and from then on the lexer stays there
 //@   ensures[C02,C03] old(atEOF(l.reader)) ==> !result && M(l.reader) <= old(M(l.reader))
+
+//@ # lexer.New (called once per file from main) re-registers the reserved word: the table invariant survives
+//@ func ti/lexer.New
+//@   safe
+//@   requires reservedOK() && reserved != nil
+//@   ensures reservedOK() && reserved != nil && result.reader == lr && result.tok == 0
